@@ -159,6 +159,9 @@ func (ex *Exec) buildReplay(m map[string]uint64) *Replay {
 			r.Vals[in.Name] = int64(m[in.Name] & 1)
 		case "opaque":
 			r.Vals[in.Name+".len"] = get(in.Name+".len", 64)
+			if rv, ok := m[in.Name+".runes"]; ok {
+				r.Vals[in.Name+".runes"] = int64(rv)
+			}
 		case "bytes":
 			for i := 0; i < in.N; i++ {
 				n := fmt.Sprintf("%s.b%d", in.Name, i)
